@@ -10,6 +10,7 @@
 #include <sys/socket.h>
 #include <netinet/in.h>
 #include <arpa/inet.h>
+#include <sys/mman.h>
 #include <unistd.h>
 #include <event2/event.h>
 #include <event2/dns.h>
@@ -63,11 +64,18 @@ struct Req {
 	int nqueries = 0;
 	bool has_id = false;
 	uint16_t cur_id = 0;
+	int id_epoch = 0;
+	int64_t t_id_set = 0;
+	size_t nreplies_at_id = 0;
 	std::vector<int> replies;	// indices into Run::sent
 	// getaddrinfo
 	int fam = 0, gai_flags = 0, socktype = 0, port = 0;
 	int sub[2] = {-1, -1};		// K_GAI: indices of the model's view of the A / AAAA sub-questions (reply lists are shared via name)
 	std::vector<int> ctx_ops;	// plan ops to run inside this request's callback
+	int parent = -1;		// sub-question of a getaddrinfo request (its callbacks are internal to the library)
+	bool numeric = false, from_hosts_expected = false;
+	bool rc = true;			// randomize-case as it was when the request was made
+	int edns = 512;			// edns-udp-size as it was when the request was made
 };
 
 struct Ns {
@@ -92,7 +100,7 @@ struct Run {
 	bool randomize_case = true;
 	int edns = 512;
 	int attempts = 3;
-	int64_t timeout_ms = 5000;
+	int64_t timeout_ms = 5000, min_timeout_ms = 5000;
 	int max_inflight = 64;
 	std::vector<std::string> search;	// configured search domains, in order
 	int ndots = 1;
@@ -102,9 +110,10 @@ struct Run {
 	bool settling = false;
 	int queries_seen = 0, non_first_try = 0, parsed_beyond_header = 0, gai_compared = 0;
 	std::map<std::string, std::vector<std::string>> hosts;	// lower-case name -> textual addresses, in file order
-	int hosts_fd = -1;
+	int hosts_fd = -1, resolv_fd = -1;
+	int ns_failed = 0;	// nameservers the library currently considers failed (from its log): probes are in flight for them
+	int epoch = 0;	// bumped when the library hands every request in flight a new id (nameservers cleared)
 	// wire-level bookkeeping for C34 id uniqueness: id -> request index currently using it
-	std::map<uint16_t, int> id_owner;
 	// model of the getaddrinfo cache: lower-case node -> (expiry ns, addresses as text, canonname flag)
 	struct CacheEnt { int64_t expiry_ns; std::vector<std::string> v4, v6; bool has_cname; std::string cname; };
 	std::map<std::string, CacheEnt> cache;
@@ -154,16 +163,26 @@ static RefReply ref_read(const std::string &b, int qtype, const dw::Name &wire_q
 		dw::Name n; unsigned t, c;
 		if (!d.name(j, n) || !d.u16(j, t) || !d.u16(j, c)) { bad(); return r; }
 		r.question_present = true;
-		if (dw::name_eq(n, wire_q, nocase)) r.question_match = true;
+		// compared as the dotted strings the API deals in (a dot inside a label is not told apart from a label boundary)
+		if (nocase ? dw::lower(dw::dotted(n)) == dw::lower(dw::dotted(wire_q)) : dw::dotted(n) == dw::dotted(wire_q)) r.question_match = true;
 	}
 	for (unsigned i = 0; i < an; i++) {
 		dw::RR rr;
-		size_t j0 = j;
-		if (!d.rr(j, rr)) {
-			// a name-typed rdata that is odd does not have to be fatal for the resolver unless it reads outside
-			bad();
-			(void)j0;
-			return r;
+		unsigned t, c, l;
+		if (!d.name(j, rr.name) || !d.u16(j, t) || !d.u16(j, c) || !d.u32(j, rr.ttl) || !d.u16(j, l)) { bad(); return r; }
+		rr.type = t; rr.cls = c;
+		if (t == dw::T_CNAME || (t == dw::T_PTR && c == dw::C_IN && qtype == dw::T_PTR)) {
+			// the resolver reads the name where the rdata starts; an RDLENGTH that disagrees with the name's extent (or runs
+			// past the message) makes the record odd, not unreadable
+			size_t k = j;
+			if (!d.name(k, rr.rname)) { bad(); return r; }
+			if (j + l > b.size() || k != j + l) r.odd = true;
+			rr.has_rname = true;
+			j = (j + l <= b.size() && k == j + l) ? j + l : k;
+		} else {
+			if (j + l > b.size()) { r.bounds_error = true; return r; }
+			rr.rdata = b.substr(j, l);
+			j += l;
 		}
 		if (rr.type == dw::T_CNAME) { r.cnames.push_back(rr.rname); continue; }
 		if (rr.cls != dw::C_IN || rr.type != qtype) continue;
@@ -181,4 +200,1193 @@ static RefReply ref_read(const std::string &b, int qtype, const dw::Name &wire_q
 		}
 	}
 	return r;
+}
+
+// ---------------------------------------------------------------------------
+// fake nameservers
+static std::string lc(const std::string &s) { return dw::lower(s); }
+
+// deterministic content of the zone: addresses for a name, derived from the name itself
+static uint32_t addr_of(const std::string &lname, int k) { return 0x0a000000u | (uint32_t)(mix(hash_str(lname.c_str()), (uint64_t)k) & 0x00ffffffu); }
+static std::string addr6_of(const std::string &lname, int k) {
+	std::string s(16, 0);
+	s[0] = 0x20; s[1] = 0x01; s[2] = 0x0d; s[3] = (char)0xb8;
+	uint64_t h = mix(hash_str(lname.c_str()), 1000 + (uint64_t)k);
+	for (int i = 0; i < 8; i++) s[8 + i] = (char)(h >> (8 * i));
+	return s;
+}
+
+static int match_request(const dw::Name &qn, int qtype, int id = -1) {
+	// among the requests whose expected names contain this one: the open request that already uses this transaction id
+	// (a retransmission), else the oldest open request that has not been sent yet, else the oldest open one, else any
+	std::string l = lc(dw::dotted(qn));
+	int same_id = -1, unsent = -1, open = -1, any = -1;
+	for (size_t i = 0; i < R->reqs.size(); i++) {
+		Req &q = R->reqs[i];
+		if (q.kind == K_GAI || q.qtype != qtype) continue;
+		if (std::find(q.expect.begin(), q.expect.end(), l) == q.expect.end()) continue;
+		if (any < 0) any = (int)i;
+		if (q.ncb || q.dropped_by_free) continue;
+		if (open < 0) open = (int)i;
+		if (id >= 0 && q.has_id && q.cur_id == id && same_id < 0) same_id = (int)i;
+		if (!q.has_id && unsent < 0) unsent = (int)i;
+	}
+	return same_id >= 0 ? same_id : unsent >= 0 ? unsent : open >= 0 ? open : any;
+}
+
+static void c36_check_query(const std::string &pkt, bool tcp, int nsidx, dw::Msg &m, bool &ok) {
+	std::string why;
+	bool prule = true;
+	size_t used = 0;
+	ok = dw::decode(pkt, m, &why, &prule, nullptr, &used);
+	if (!ok) { V("C36", "C36.malformed-query", "nameserver %d received %zu bytes that do not decode as a DNS message (%s): %s", nsidx, pkt.size(), why.c_str(), hexs(pkt, 40).c_str()); return; }
+	if (used != pkt.size()) V("C36", "C36.trailing-bytes", "query has %zu bytes after the last record", pkt.size() - used);
+	if (m.flags & dw::F_QR) V("C36", "C36.query-flags", "query has QR set (flags 0x%04x)", m.flags);
+	else if (m.flags & dw::F_OPMASK) V("C36", "C36.query-flags", "query opcode is not QUERY (flags 0x%04x)", m.flags);
+	else if (!(m.flags & dw::F_RD)) V("C36", "C36.query-flags", "query without recursion desired (flags 0x%04x)", m.flags);
+	if (m.q.size() != 1) { V("C36", "C36.question-count", "query carries %zu questions", m.q.size()); ok = false; return; }
+	if (!m.an.empty() || !m.ns.empty()) V("C36", "C36.query-sections", "query carries answer/authority records");
+	// the packet of a request is built when the request (or its search / TCP successor) is made: the size in force then or now
+	int e1 = R->edns, e2 = R->edns;
+	bool internal_probe = false;	// the library's own "is the nameserver back" query: made at a time the harness does not see
+	if (m.q.size() == 1) { int ri = match_request(m.q[0].name, m.q[0].type, m.id); if (ri >= 0) e2 = R->reqs[ri].edns; else internal_probe = lc(dw::dotted(m.q[0].name)) == "google.com"; }
+	int nopt = 0;
+	for (auto &r : m.ar) if (r.type == dw::T_OPT) {
+		nopt++;
+		if (!r.name.empty()) V("C36", "C36.opt-record", "OPT record owner name is not the root");
+		if ((int)r.cls != e1 && (int)r.cls != e2 && !internal_probe) V("C36", "C36.opt-record", "OPT record advertises %u bytes, configured edns-udp-size is %d", r.cls, R->edns);
+	}
+	if ((size_t)nopt != m.ar.size()) V("C36", "C36.query-sections", "query carries additional records other than OPT");
+	bool ok1 = (e1 > 512) ? nopt == 1 : nopt == 0, ok2 = (e2 > 512) ? nopt == 1 : nopt == 0;
+	if (!ok1 && !ok2 && !internal_probe) V("C36", "C36.opt-presence", "query has %d OPT record(s), edns-udp-size is %d", nopt, R->edns);
+	const dw::Name &qn = m.q[0].name;
+	for (auto &lab : qn) if (lab.empty()) V("C36", "C36.empty-label", "question name has an empty label");
+	if (dw::wire_len(qn) > 255) V("C36", "C36.name-too-long", "question name takes %zu octets on the wire", dw::wire_len(qn));
+	if (m.q[0].cls != dw::C_IN) V("C36", "C36.question-class", "question class %u", m.q[0].cls);
+	(void)tcp;
+}
+
+static std::string build_reply(const dw::Msg &q, const Behav &bh, int qtype, bool over_tcp) {
+	dw::Msg r;
+	r.id = q.id;
+	r.flags = dw::F_QR | dw::F_RA | (q.flags & dw::F_RD);
+	r.q = q.q;
+	const dw::Name &qn = q.q[0].name;
+	std::string l = lc(dw::dotted(qn));
+	int n = 1;
+	uint32_t ttl = 300;
+	dw::Name owner = qn;
+	auto add_answers = [&](int count, uint32_t t) {
+		for (int k = 0; k < count; k++) {
+			dw::RR rr;
+			rr.name = owner;
+			rr.type = qtype;
+			rr.ttl = t + (uint32_t)k;	// the first record has the smallest TTL
+			if (qtype == dw::T_A) rr.rdata = dw::a_rdata(addr_of(l, k));
+			else if (qtype == dw::T_AAAA) rr.rdata = addr6_of(l, k);
+			else { rr.has_rname = true; rr.rname = dw::name_from_dotted("host" + std::to_string(k) + "." + (l.size() > 40 ? l.substr(l.size() - 40) : l)); if (k > 0) break; }
+			r.an.push_back(rr);
+		}
+	};
+	switch (bh.kind) {
+	case B_RCODE: r.flags |= (uint16_t)(bh.a & 15); if ((bh.a & 15) == 0) add_answers(1, 60); break;
+	case B_TC: if (!over_tcp) { r.flags |= dw::F_TC; break; } add_answers(2, 120); break;
+	case B_NODATA: {
+		dw::RR soa;
+		soa.name = dw::Name(qn.size() > 1 ? qn.begin() + 1 : qn.begin(), qn.end());
+		soa.type = dw::T_SOA;
+		soa.ttl = 900;
+		dw::Enc e; e.compress = false;
+		e.name(dw::name_from_dotted("ns.invalid")); e.name(dw::name_from_dotted("root.invalid"));
+		e.u32(1); e.u32(2); e.u32(3); e.u32(4); e.u32((uint32_t)(bh.a > 0 ? bh.a : 77));
+		soa.rdata = e.out;
+		r.ns.push_back(soa);
+		break;
+	}
+	case B_OTHER_TYPE: {
+		dw::RR rr; rr.name = qn; rr.type = qtype == dw::T_A ? dw::T_AAAA : dw::T_A; rr.ttl = 50;
+		rr.rdata = rr.type == dw::T_A ? dw::a_rdata(addr_of(l, 0)) : addr6_of(l, 0);
+		r.an.push_back(rr);
+		dw::RR tx; tx.name = qn; tx.type = dw::T_TXT; tx.ttl = 5; tx.rdata = std::string("\x03" "abc", 4); r.an.push_back(tx);
+		break;
+	}
+	case B_BIG: n = (int)std::max<int64_t>(2, std::min<int64_t>(bh.a, 60)); add_answers(n, 1000); break;
+	case B_CNAME: {
+		int chain = (int)std::max<int64_t>(1, std::min<int64_t>(bh.a, 3));
+		dw::Name cur = qn;
+		for (int c = 0; c < chain; c++) {
+			dw::RR cn; cn.name = cur; cn.type = dw::T_CNAME; cn.ttl = 30 + (uint32_t)c; cn.has_rname = true;
+			cn.rname = dw::name_from_dotted("alias" + std::to_string(c) + ".cname.test");
+			r.an.push_back(cn);
+			cur = cn.rname;
+		}
+		owner = cur;
+		add_answers((int)std::max<int64_t>(1, bh.b % 4), 200);
+		break;
+	}
+	default:
+		n = bh.kind == B_ANSWER ? (int)std::max<int64_t>(1, std::min<int64_t>(bh.a ? bh.a : 1, 8)) : 1;
+		ttl = bh.kind == B_ANSWER && bh.b > 0 ? (uint32_t)bh.b : 300;
+		add_answers(n, ttl);
+		break;
+	}
+	return dw::encode(r, true);
+}
+
+// adversarial edits of an otherwise valid reply; the reference reader decides afterwards what the result may be
+static std::string mutate(std::string b, int kind, int64_t param, const dw::Msg &q) {
+	auto put16 = [&](size_t off, unsigned v) { if (off + 2 <= b.size()) { b[off] = (char)(v >> 8); b[off + 1] = (char)v; } };
+	auto get16 = [&](size_t off) -> unsigned { return off + 2 <= b.size() ? (((unsigned char)b[off] << 8) | (unsigned char)b[off + 1]) : 0; };
+	size_t qend = 12 + dw::wire_len(q.q[0].name) + 4;	// first byte after the (uncompressed) question
+	switch (kind % 14) {
+	case 0: if (!b.empty()) { size_t o = (size_t)param % b.size(); b[o] = (char)(b[o] ^ (1 << (param / 7 % 8))); } break;
+	case 1: b.resize((size_t)param % (b.size() + 1)); break;
+	case 2: put16(0, get16(0) ^ (1 + (unsigned)(param % 0xfffe))); break;	// wrong id
+	case 3: if (b.size() > 13) { b[13] = (char)(b[13] == 'z' ? 'y' : b[13] + 1); } break;	// first letter of the question name changed
+	case 4: put16(2, get16(2) & ~dw::F_QR); break;	// not a response
+	case 5: put16(6, get16(6) + 1 + (unsigned)(param % 3)); break;	// ANCOUNT claims more records than present
+	case 6: if (qend + 2 <= b.size()) { b[qend] = (char)0xc0; b[qend + 1] = (char)qend; } break;	// owner name of the first answer points at itself
+	case 7: {	// RDLENGTH of the first answer lies
+		size_t rdl = qend + 2 + 8;
+		if (rdl + 2 <= b.size()) put16(rdl, get16(rdl) + (unsigned)(param % 5 == 0 ? 0x7000 : 1 + param % 9));
+		break;
+	}
+	case 8: {	// two CNAME records in front of the answers
+		dw::Msg m;
+		if (dw::decode(b, m)) {
+			for (int c = 0; c < 2; c++) { dw::RR cn; cn.name = m.q[0].name; cn.type = dw::T_CNAME; cn.ttl = 7; cn.has_rname = true; cn.rname = dw::name_from_dotted(c ? "second.cname.test" : "first.cname.test"); m.an.insert(m.an.begin(), cn); }
+			b = dw::encode(m, true);
+		}
+		break;
+	}
+	case 9: if (qend + 2 <= b.size()) { b[qend] = (char)0xff; b[qend + 1] = (char)0xff; } break;	// pointer far outside the message
+	case 10: put16(4, 0); b.erase(12, std::min(b.size() - 12, qend - 12)); break;	// question section removed
+	case 11: if (qend < b.size()) b[qend] = (char)(0x40 | (param & 0x3f)); break;	// reserved label type
+	case 12: b.append(std::string((size_t)(param % 40), (char)(param & 0xff))); break;	// trailing bytes
+	case 13: {	// a label length that runs past the end
+		if (qend < b.size()) b[qend] = (char)63;
+		break;
+	}
+	}
+	return b;
+}
+
+static void send_reply(int nsidx, Ns::Conn *conn, const sockaddr_storage &from, socklen_t fromlen, const std::string &bytes, bool from_aux, int64_t delay_ns,
+    int close_at /* tcp: close after this many bytes of the framed reply, -1 none */, bool rst) {
+	Ns &ns = R->ns[nsidx];
+	if (conn) {
+		std::string framed;
+		framed += (char)(bytes.size() >> 8);
+		framed += (char)bytes.size();
+		framed += bytes;
+		vk::Endpoint *ep = conn->ep;
+		auto doit = [ep, conn, framed, close_at, rst]() {
+			if (!conn->open || !vk::ep_open(ep)) return;
+			if (rst) { conn->open = false; vk::ep_reset(ep); return; }
+			std::string part = close_at >= 0 ? framed.substr(0, std::min<size_t>((size_t)close_at, framed.size())) : framed;
+			// arbitrary segmentation of the stream
+			std::vector<size_t> cuts;
+			for (size_t c = 1; c < part.size(); c++) if (G.net.chance(0.15)) cuts.push_back(c);
+			if (!part.empty()) vk::ep_send_cut(ep, part, cuts, 1000);
+			if (close_at >= 0) { conn->open = false; vk::ep_shutdown(ep); vk::ep_close(ep); }
+		};
+		if (delay_ns > 0) vk::after(delay_ns, doit); else doit();
+		return;
+	}
+	vk::Endpoint *src = from_aux ? ns.aux : ns.udp;
+	sockaddr_storage to = from;
+	auto doit = [src, bytes, to, fromlen]() { vk::ep_sendto(src, bytes, (const sockaddr *)&to, fromlen); };
+	if (delay_ns > 0) vk::after(delay_ns, doit); else doit();
+}
+
+static void ns_on_query(int nsidx, const std::string &pkt, Ns::Conn *conn, const sockaddr_storage &from, socklen_t fromlen) {
+	Ns &ns = R->ns[nsidx];
+	if (stop()) return;
+	dw::Msg q;
+	bool ok = false;
+	c36_check_query(pkt, conn != nullptr, nsidx, q, ok);
+	tr("ns%d query %s id=%u n=%zu ok=%d name=%s type=%u", nsidx, conn ? "tcp" : "udp", q.id, pkt.size(), ok, ok ? dw::dotted(q.q[0].name).c_str() : "?", ok ? q.q[0].type : 0);
+	if (!ok || stop()) return;
+	R->queries_seen++;
+	int qtype = q.q[0].type;
+	int ri = match_request(q.q[0].name, qtype, q.id);
+	std::string lname = lc(dw::dotted(q.q[0].name));
+	bool probe_query = lname == "google.com" && ri < 0;
+	if (ri < 0 && !probe_query) {
+		V("C36", "C36.unrequested-name", "nameserver %d was asked for %s type %d, which no request made through the API explains", nsidx, lname.c_str(), qtype);
+		return;
+	}
+	if (ri >= 0) {
+		Req &rq = R->reqs[ri];
+		rq.nqueries++;
+		rq.t_last_query = G.now_ns;
+		// case: with randomize-case off the name must be written exactly as requested
+		size_t pos = std::find(rq.expect.begin(), rq.expect.end(), lname) - rq.expect.begin();
+		if (!R->randomize_case && !rq.rc && pos == 0 && rq.search_pos <= 0 && rq.kind <= K_AAAA) {
+			std::string want = rq.name;
+			while (!want.empty() && want.back() == '.') want.pop_back();
+			if (rq.expect.size() == 1 && dw::dotted(q.q[0].name) != want && lc(want) == lname)
+				V("C36", "C36.case-changed", "randomize-case is off, requested '%s', the query says '%s'", want.c_str(), dw::dotted(q.q[0].name).c_str());
+		}
+		if (rq.nqueries > 1) R->non_first_try++;
+		if (!rq.encodable) V("C36", "C36.invalid-name-transmitted", "request %d: the name '%s' cannot be written as valid labels, yet a query for it was transmitted", ri, rq.name.size() > 80 ? (rq.name.substr(0, 80) + "...").c_str() : rq.name.c_str());
+		if (conn) probe("query-over-tcp");
+	}
+	if (!ns.up) { tr("ns%d down: dropped", nsidx); fault("ns.down"); return; }
+	Behav bh;
+	if (!ns.script.empty() && !R->settling) { bh = ns.script.front(); ns.script.pop_front(); }
+	if (probe_query && bh.kind == B_MUTATE) bh.kind = B_ANSWER;
+	static const char *const bn[B_N] = {"answer", "drop", "delay", "rcode", "tc", "mutate", "dup", "nodata", "tcp-close-at", "tcp-rst", "other-type", "big", "cname"};
+	fault((std::string("ns.") + bn[bh.kind]).c_str());
+	tr("ns%d behaviour %s a=%lld b=%lld", nsidx, bn[bh.kind], (long long)bh.a, (long long)bh.b);
+	if (bh.kind == B_DROP) return;
+	std::string bytes = build_reply(q, bh, qtype, conn != nullptr);
+	bool from_aux = false;
+	int64_t delay = 0;
+	int close_at = -1;
+	bool rst = false;
+	if (bh.kind == B_DELAY) delay = std::max<int64_t>(0, bh.a) * 1000000;
+	if (bh.kind == B_MUTATE) {
+		if (bh.a % 15 == 14) from_aux = !conn;	// a reply from an address that is not the nameserver's
+		else bytes = mutate(bytes, (int)(bh.a % 15), bh.b, q);
+	}
+	if (bh.kind == B_TCP_CLOSE_AT && conn) close_at = (int)(bh.a % (bytes.size() + 3));
+	if (bh.kind == B_TCP_RST && conn) rst = true;
+	SentReply sr;
+	sr.bytes = bytes;
+	sr.from_ok = !from_aux;
+	sr.tcp = conn != nullptr;
+	sr.ns = nsidx;
+	sr.q_id = q.id;
+	sr.q_name = q.q[0].name;
+	sr.q_type = (uint16_t)qtype;
+	sr.complete = !rst && (close_at < 0 || (size_t)close_at >= bytes.size() + 2);
+	sr.t_sent = G.now_ns;
+	R->sent.push_back(sr);
+	if (ri >= 0) R->reqs[ri].replies.push_back((int)R->sent.size() - 1);
+	send_reply(nsidx, conn, from, fromlen, bytes, from_aux, delay, close_at, rst);
+	if (bh.kind == B_DUP) send_reply(nsidx, conn, from, fromlen, bytes, false, std::max<int64_t>(1, bh.a) * 1000000, -1, false);
+}
+
+// C34: transaction ids, judged at the moment a query leaves the resolver (what arrives later may be a stale datagram)
+static void on_query_sent(const std::string &pkt) {
+	dw::Msg m;
+	if (stop() || !dw::decode(pkt, m) || m.q.size() != 1 || (m.flags & dw::F_QR)) return;
+	int ri = match_request(m.q[0].name, m.q[0].type, m.id);
+	if (ri < 0) return;
+	Req &rq = R->reqs[ri];
+	if (rq.ncb || rq.dropped_by_free) return;
+	{
+		// search order, judged when the query leaves the resolver: positions never go back and never skip a candidate
+		std::string lname = lc(dw::dotted(m.q[0].name));
+		size_t pos = std::find(rq.expect.begin(), rq.expect.end(), lname) - rq.expect.begin();
+		if ((int)pos < rq.search_pos) V("C36", "C36.search-order", "request %d: query for candidate %zu ('%s') after candidate %d had been tried", ri, pos, lname.c_str(), rq.search_pos);
+		else if ((int)pos > rq.search_pos + 1) V("C36", "C36.search-order", "request %d: query for candidate %zu ('%s') skips candidate %d", ri, pos, lname.c_str(), rq.search_pos + 1);
+		if ((int)pos > rq.search_pos) { if (rq.search_pos >= 0) { probe("search-list-step"); R->non_first_try++; } rq.search_pos = (int)pos; }
+	}
+	if (rq.has_id && rq.cur_id != m.id) probe("transaction-id-changed");
+	rq.has_id = true;
+	rq.cur_id = m.id;
+	rq.id_epoch = R->epoch;
+	rq.t_id_set = G.now_ns;
+	rq.nreplies_at_id = rq.replies.size();
+}
+// evaluated before every wait of the loop: all deferred result callbacks have run by then, so a request without a callback
+// (and not cancelled, not failed by evdns_base_free) is in flight inside the library
+static void check_ids_unique() {
+	if (stop() || !R->dns || R->dns_freed) return;
+	std::map<uint16_t, int> owner;
+	int open = 0;
+	for (size_t i = 0; i < R->reqs.size(); i++) {
+		Req &q = R->reqs[i];
+		if (q.kind == K_GAI || q.ncb || q.dropped_by_free || q.failed_by_free || !q.has_id || q.id_epoch != R->epoch) continue;
+		if (q.parent >= 0 ? (R->reqs[q.parent].cancelled || R->reqs[q.parent].ncb) : q.cancelled) continue;
+		// the sub-questions of a getaddrinfo finish inside the library: one counts as in flight only while no reply has been
+		// sent for it and its first timeout cannot have passed
+		// (the same holds for a request with search candidates or a TCP fallback ahead of it: an answer may have moved it on to
+		// a successor that is still waiting for a free slot and has no id yet)
+		if (q.replies.size() != q.nreplies_at_id || G.now_ns - q.t_id_set >= std::min<int64_t>(R->timeout_ms, R->min_timeout_ms) * 1000000) continue;
+		open++;
+		auto ins = owner.emplace(q.cur_id, (int)i);
+		if (!ins.second) {
+			Req &o = R->reqs[ins.first->second];
+			V("C34", "C34.transaction-id-shared", "requests %d ('%s' type %d) and %zu ('%s' type %d) are both in flight with transaction id %u", ins.first->second, o.name.substr(0, 40).c_str(), o.qtype, i, q.name.substr(0, 40).c_str(), q.qtype, q.cur_id);
+			return;
+		}
+	}
+	if (open >= 3 && vk::rng_byte_mask != 0xff) probe("three-in-flight-with-few-ids");
+}
+static std::map<int, std::string> g_tcp_out;	// per fd: bytes written by the resolver, cut into length-prefixed queries
+static void on_stream_tap(int fd, bool out, const char *p, size_t n) {
+	if (!out || !R) return;
+	std::string &b = g_tcp_out[fd];
+	b.append(p, n);
+	while (b.size() >= 2) {
+		size_t l = ((unsigned char)b[0] << 8) | (unsigned char)b[1];
+		if (b.size() < 2 + l) break;
+		on_query_sent(b.substr(2, l));
+		b.erase(0, 2 + l);
+	}
+}
+
+static void ns_tcp_data(int nsidx, Ns::Conn *c, const std::string &d) {
+	c->in += d;
+	while (c->in.size() >= 2) {
+		size_t l = ((unsigned char)c->in[0] << 8) | (unsigned char)c->in[1];
+		if (c->in.size() < 2 + l) break;
+		std::string pkt = c->in.substr(2, l);
+		c->in.erase(0, 2 + l);
+		sockaddr_storage none{};
+		ns_on_query(nsidx, pkt, c, none, 0);
+		if (!c->open) break;
+	}
+}
+
+static void ns_start(int i) {
+	Ns &ns = R->ns[i];
+	ns.addr = vk::addr4(0x7f000001, (uint16_t)(5300 + i));
+	vk::EndpointCbs cbs;
+	cbs.on_dgram = [i](vk::Endpoint *, const std::string &d, const sockaddr_storage &from, socklen_t fl) { ns_on_query(i, d, nullptr, from, fl); };
+	ns.udp = vk::ep_dgram((sockaddr *)&ns.addr, sizeof ns.addr, cbs);
+	sockaddr_in aux = vk::addr4(0x7f000002, (uint16_t)(5390 + i));	// another host (the resolver compares addresses, not ports)
+	ns.aux = vk::ep_dgram((sockaddr *)&aux, sizeof aux, vk::EndpointCbs());
+	ns.tcp_l = vk::ep_listen((sockaddr *)&ns.addr, sizeof ns.addr, [i](vk::Endpoint *conn) {
+		Ns::Conn *c = new Ns::Conn{conn, "", true};
+		R->ns[i].conns.push_back(c);
+		vk::EndpointCbs cb;
+		cb.on_data = [i, c](vk::Endpoint *, const std::string &d) { if (c->open) ns_tcp_data(i, c, d); };
+		cb.on_eof = [c](vk::Endpoint *e) { if (c->open) { c->open = false; vk::ep_close(e); } };
+		cb.on_reset = [c](vk::Endpoint *) { c->open = false; };
+		vk::ep_set_cbs(conn, cb);
+		probe("tcp-connection-accepted");
+	});
+}
+
+// ---------------------------------------------------------------------------
+// resolver-side callbacks and oracles
+static void exec_op(const Op &op, int idx);
+
+static bool addressed(const SentReply &s, const RefReply &rr) {
+	return s.from_ok && s.complete && rr.header && rr.id == s.q_id && (rr.flags & dw::F_QR);
+}
+
+static void check_result(int ri, int result, char type, int count, int ttl, const void *addresses) {
+	Req &q = R->reqs[ri];
+	static const char want_type[4] = {DNS_IPv4_A, DNS_IPv6_AAAA, DNS_PTR, DNS_PTR};
+	if (type != want_type[q.kind]) { V("C33", "C33.result-type", "request %d (kind %d) reported with type %d", ri, q.kind, type); return; }
+	if (result == DNS_ERR_TIMEOUT || result == DNS_ERR_CANCEL || result == DNS_ERR_SHUTDOWN) {
+		if (count != 0 || addresses) V("C33", "C33.data-with-error", "request %d: error %d reported together with %d address(es)", ri, result, count);
+		return;
+	}
+	bool any_addressed = false, explained = false;
+	std::string why_not;
+	for (int si : q.replies) {
+		const SentReply &s = R->sent[si];
+		RefReply rr = ref_read(s.bytes, q.qtype, s.q_name, R->randomize_case || q.rc);
+		if (!addressed(s, rr)) continue;
+		if (rr.qd || rr.header) R->parsed_beyond_header++;
+		unsigned rcode = rr.flags & dw::F_RCODE;
+		bool tc = rr.flags & dw::F_TC;
+		bool for_me = (rcode || tc) ? (rr.question_match || !rr.question_present) : rr.question_match;
+		if (!for_me) { why_not = "a reply with the right id was sent, but its question is '" + std::string(rr.question_present ? "different" : "missing") + "'"; continue; }
+		any_addressed = true;
+		if (result != DNS_ERR_NONE) {
+			if (result == DNS_ERR_NOTEXIST && rcode != 3) continue;
+			explained = true;
+			break;
+		}
+		// success: exactly what this reply says
+		if (rcode || tc) continue;
+		if (rr.bounds_error || rr.bad_rdlen) { why_not = "the reply's answer section reaches outside the message or has an impossible RDLENGTH"; continue; }
+		if (rr.odd) { explained = true; probe("odd-reply-accepted"); break; }
+		if (q.qtype == dw::T_PTR) {
+			if (!rr.have_ptr) continue;
+			const char *got = count == 1 && addresses ? *(const char *const *)addresses : nullptr;
+			if (got && dw::dotted(rr.ptr) == got && (uint32_t)ttl <= rr.min_ttl) { explained = true; break; }
+			why_not = "PTR name or TTL differs from the reply (reply says '" + dw::dotted(rr.ptr) + "' ttl " + std::to_string(rr.min_ttl) + ")";
+		} else {
+			size_t w = q.qtype == dw::T_A ? 4 : 16;
+			if (rr.addrs.empty()) continue;
+			bool same = (size_t)count == rr.addrs.size() && addresses;
+			for (size_t k = 0; same && k < rr.addrs.size(); k++) if (memcmp((const char *)addresses + k * w, rr.addrs[k].data(), w) != 0) same = false;
+			if (same && (uint32_t)ttl <= rr.min_ttl) { explained = true; break; }
+			why_not = same ? "TTL " + std::to_string(ttl) + " exceeds the smallest record TTL " + std::to_string(rr.min_ttl) : "the reply holds " + std::to_string(rr.addrs.size()) + " address(es), the callback got " + std::to_string(count) + " or different ones";
+		}
+	}
+	if (explained) return;
+	if (result == DNS_ERR_NONE)
+		V("C33", "C33.result-not-in-any-reply", "request %d ('%s' type %d): success with %d record(s), ttl %d, which no reply sent for it justifies (%zu replies sent; %s)", ri, q.name.substr(0, 60).c_str(), q.qtype, count, ttl, q.replies.size(), why_not.c_str());
+	else if (!any_addressed)
+		V("C33", "C33.unmatched-reply-used", "request %d ('%s' type %d) failed with error %d (%s) although no reply carrying its id and question was sent and no timeout, cancel or shutdown happened (%zu replies sent; %s)", ri, q.name.substr(0, 60).c_str(), q.qtype, result, evdns_err_to_string(result), q.replies.size(), why_not.c_str());
+	else
+		V("C33", "C33.error-not-explained", "request %d: error %d (%s) but no reply sent for it says so", ri, result, evdns_err_to_string(result));
+}
+
+static void run_ctx_ops(int ri) {
+	std::vector<int> ops;
+	ops.swap(R->reqs[ri].ctx_ops);
+	for (int oi : ops) { if (stop()) break; probe("op-inside-callback"); exec_op(R->plan->ops[oi], oi); }
+}
+
+static void resolve_cb(int result, char type, int count, int ttl, void *addresses, void *arg) {
+	int ri = (int)(intptr_t)arg;
+	if (!R) return;
+	Req &q = R->reqs[ri];
+	tr("cb resolve req=%d result=%d type=%d count=%d ttl=%d", ri, result, type, count, ttl);
+	if (stop()) return;
+	if (!R->base) { V("C34", "C34.callback-after-base-free", "request %d: callback after the event base was freed", ri); return; }
+	if (type == DNS_CNAME) {
+		q.ncname_cb++;
+		if (!(q.flags & DNS_CNAME_CALLBACK)) V("C33", "C33.cname-unrequested", "request %d: CNAME callback without DNS_CNAME_CALLBACK", ri);
+		else if (q.ncb != 1 || q.ncname_cb > 1) V("C34", "C34.cname-callback-order", "request %d: CNAME callback number %d after %d result callbacks", ri, q.ncname_cb, q.ncb);
+		else {
+			bool found = false;
+			for (int si : q.replies) { RefReply rr = ref_read(R->sent[si].bytes, q.qtype, R->sent[si].q_name, true); for (auto &c : rr.cnames) if (addresses && dw::dotted(c) == (const char *)addresses) found = true; if (rr.odd) found = true; }
+			if (!found) V("C33", "C33.cname-not-in-reply", "request %d: reported CNAME '%s' is in no reply sent for it", ri, addresses ? (const char *)addresses : "(null)");
+			probe("cname-reported");
+		}
+		return;
+	}
+	q.ncb++;
+	q.h = nullptr;
+	if (q.ncb > 1) { V("C34", "C34.callback-twice", "request %d: result callback number %d (result %d)", ri, q.ncb, result); return; }
+	q.result = result;
+	if (result == DNS_ERR_CANCEL && !q.cancelled) V("C34", "C34.cancel-not-requested", "request %d reported DNS_ERR_CANCEL but was never cancelled", ri);
+	if (result == DNS_ERR_SHUTDOWN && !R->dns_freed) V("C34", "C34.shutdown-without-free", "request %d reported DNS_ERR_SHUTDOWN while the evdns base is alive", ri);
+	if (q.cancelled && result == DNS_ERR_CANCEL) probe("cancelled");
+	if (q.cancelled && result != DNS_ERR_CANCEL) probe("cancel-lost-to-pending-result");
+	if (result == DNS_ERR_TIMEOUT) probe("request-timeout");
+	if (result == DNS_ERR_SHUTDOWN) probe("shutdown-result");
+	if (result != DNS_ERR_NONE || q.nqueries > 1) R->non_first_try++;
+	check_result(ri, result, type, count, ttl, addresses);
+	R->in_cb++;
+	run_ctx_ops(ri);
+	R->in_cb--;
+}
+
+// ---- getaddrinfo
+static std::string sa_text(const sockaddr *sa) {
+	char b[80] = "?";
+	if (sa->sa_family == AF_INET) evutil_inet_ntop(AF_INET, &((const sockaddr_in *)sa)->sin_addr, b, sizeof b);
+	else if (sa->sa_family == AF_INET6) evutil_inet_ntop(AF_INET6, &((const sockaddr_in6 *)sa)->sin6_addr, b, sizeof b);
+	return b;
+}
+static std::string raw_text(const std::string &raw) {
+	char b[80] = "?";
+	evutil_inet_ntop(raw.size() == 4 ? AF_INET : AF_INET6, raw.data(), b, sizeof b);
+	return b;
+}
+
+static void gai_check(int ri, int result, struct evutil_addrinfo *res) {
+	Req &q = R->reqs[ri];
+	if (result != 0) { if (res) V("C38", "C38.result-with-error", "getaddrinfo %d: error %d together with a result list", ri, result); return; }
+	if (!res) { V("C38", "C38.empty-success", "getaddrinfo %d: success without any address", ri); return; }
+	// sources: hosts file entries, else addressed well-formed answers to the two sub-questions (or a cached copy of them)
+	std::string node = lc(q.name);
+	std::vector<std::string> allowed4, allowed6;
+	bool from_hosts = false, any_odd = false;
+	auto hit = q.from_hosts_expected ? R->hosts.find(node) : R->hosts.end();
+	if (q.numeric) {
+		// numeric node: the address itself; NULL node: loopback, or the wildcard with AI_PASSIVE
+		if (q.name.empty()) { allowed4 = {(q.gai_flags & EVUTIL_AI_PASSIVE) ? "0.0.0.0" : "127.0.0.1"}; allowed6 = {(q.gai_flags & EVUTIL_AI_PASSIVE) ? "::" : "::1"}; }
+		else {
+			unsigned char buf[16]; char txt[80];
+			if (evutil_inet_pton(AF_INET, q.name.c_str(), buf) == 1) allowed4 = {evutil_inet_ntop(AF_INET, buf, txt, sizeof txt)};
+			else if (evutil_inet_pton(AF_INET6, q.name.c_str(), buf) == 1) allowed6 = {evutil_inet_ntop(AF_INET6, buf, txt, sizeof txt)};
+		}
+	} else if (hit != R->hosts.end()) {
+		from_hosts = true;
+		for (auto &a : hit->second) (a.find(':') == std::string::npos ? allowed4 : allowed6).push_back(a);
+	} else {
+		// (several getaddrinfo requests for one node may be in flight: an answer for (name, type) can serve any of them)
+		for (size_t si = 0; si < R->reqs.size(); si++) {
+			Req &sq = R->reqs[si];
+			if (sq.parent < 0 || lc(sq.name) != node) continue;
+			int k = sq.kind == K_A ? 0 : 1;
+			if (q.sub[k] < 0) continue;
+			// the last addressed, successful reply wins (it is the one the resolver acted on, earlier ones failed or were lost)
+			for (int x : sq.replies) {
+				const SentReply &s = R->sent[x];
+				RefReply rr = ref_read(s.bytes, sq.qtype, s.q_name, true);
+				if (!addressed(s, rr) || !rr.question_match || (rr.flags & (dw::F_RCODE | dw::F_TC)) || rr.bounds_error || rr.bad_rdlen) continue;
+				if (rr.odd) any_odd = true;	// an unusual but readable reply: what the resolver takes from it is not pinned down
+				for (auto &a : rr.addrs) (k == 0 ? allowed4 : allowed6).push_back(raw_text(a));
+			}
+		}
+		auto ce = R->cache.find(node);
+		if (ce != R->cache.end()) { for (auto &a : ce->second.v4) allowed4.push_back(a); for (auto &a : ce->second.v6) allowed6.push_back(a); }
+	}
+	int n4 = 0, n6 = 0;
+	bool seen6 = false;
+	for (struct evutil_addrinfo *ai = res; ai; ai = ai->ai_next) {
+		if (!ai->ai_addr) { V("C38", "C38.null-address", "getaddrinfo %d: entry without an address", ri); return; }
+		int f = ai->ai_addr->sa_family;
+		std::string t = sa_text(ai->ai_addr);
+		int port = f == AF_INET ? ntohs(((sockaddr_in *)ai->ai_addr)->sin_port) : ntohs(((sockaddr_in6 *)ai->ai_addr)->sin6_port);
+		if (f == AF_INET) { n4++; if (seen6 && !from_hosts) probe("v4-after-v6"); } else { n6++; seen6 = true; }
+		if ((q.fam == 1 && f != AF_INET) || (q.fam == 2 && f != AF_INET6)) { V("C38", "C38.family-hint", "getaddrinfo %d: family hint %d but an address of family %d (%s) was returned", ri, q.fam, f, t.c_str()); return; }
+		auto &al = f == AF_INET ? allowed4 : allowed6;
+		if (std::find(al.begin(), al.end(), t) == al.end() && !any_odd) { V("C38", "C38.address-from-nowhere", "getaddrinfo %d ('%s'): returned %s, which is neither in the hosts file nor in any answer sent for it", ri, q.name.c_str(), t.c_str()); return; }
+		if (port != q.port) { V("C38", "C38.port", "getaddrinfo %d: port %d, the service says %d", ri, port, q.port); return; }
+		if (ai->ai_family != f) { V("C38", "C38.ai-family", "getaddrinfo %d: ai_family %d for an address of family %d", ri, ai->ai_family, f); return; }
+		if (q.socktype && ai->ai_socktype != q.socktype) { V("C38", "C38.socktype", "getaddrinfo %d: ai_socktype %d, hint %d", ri, ai->ai_socktype, q.socktype); return; }
+		if (q.socktype == SOCK_STREAM && ai->ai_protocol != IPPROTO_TCP) { V("C38", "C38.protocol", "getaddrinfo %d: SOCK_STREAM with protocol %d", ri, ai->ai_protocol); return; }
+		if (q.socktype == SOCK_DGRAM && ai->ai_protocol != IPPROTO_UDP) { V("C38", "C38.protocol", "getaddrinfo %d: SOCK_DGRAM with protocol %d", ri, ai->ai_protocol); return; }
+	}
+	R->gai_compared++;
+	{
+		// each address once per socket type the hints allow (two when the type is left open)
+		std::map<std::string, int> cnt;
+		for (struct evutil_addrinfo *ai = res; ai; ai = ai->ai_next) cnt[sa_text(ai->ai_addr)]++;
+		int mult = q.socktype ? 1 : 2;
+		if (!(q.gai_flags & EVUTIL_AI_NUMERICHOST)) for (auto &kv : cnt) if (kv.second != mult && !stop()) { V("C38", "C38.duplicate-address", "getaddrinfo %d ('%s'): %s appears %d time(s), expected %d", ri, q.name.c_str(), kv.first.c_str(), kv.second, mult); break; }
+	}
+	if (from_hosts) {
+		probe("hosts-hit");
+		size_t want = ((q.fam != 2 ? allowed4.size() : 0) + (q.fam != 1 ? allowed6.size() : 0)) * (q.socktype ? 1 : 2);
+		if ((size_t)(n4 + n6) != want) V("C38", "C38.hosts-entries", "getaddrinfo %d ('%s'): the hosts file has %zu matching entries for the hinted family, %d were returned", ri, q.name.c_str(), want, n4 + n6);
+	}
+}
+
+static void gai_cb(int result, struct evutil_addrinfo *res, void *arg) {
+	int ri = (int)(intptr_t)arg;
+	if (!R) { if (res) evutil_freeaddrinfo(res); return; }
+	Req &q = R->reqs[ri];
+	int n = 0;
+	for (struct evutil_addrinfo *ai = res; ai; ai = ai->ai_next) n++;
+	tr("cb getaddrinfo req=%d result=%d entries=%d", ri, result, n);
+	if (stop()) { if (res) evutil_freeaddrinfo(res); return; }
+	if (!R->base) { V("C34", "C34.callback-after-base-free", "getaddrinfo %d: callback after the event base was freed", ri); return; }
+	q.ncb++;
+	q.gh = nullptr;
+	for (int k = 0; k < 2; k++) if (q.sub[k] >= 0) R->reqs[q.sub[k]].ncb = 1;
+	if (q.ncb > 1) { V("C34", "C34.callback-twice", "getaddrinfo %d: callback number %d (result %d)", ri, q.ncb, result); if (res) evutil_freeaddrinfo(res); return; }
+	q.result = result;
+	if (result == EVUTIL_EAI_CANCEL && !q.cancelled) V("C34", "C34.cancel-not-requested", "getaddrinfo %d reported EVUTIL_EAI_CANCEL but was never cancelled", ri);
+	if (q.cancelled && result == EVUTIL_EAI_CANCEL) probe("getaddrinfo-cancelled");
+	if (result != 0) R->non_first_try++;
+	gai_check(ri, result, res);
+	if (result == 0 && res && !stop()) {
+		// model of the cache: what a later lookup may be answered from, and until when at the latest
+		std::string node = lc(q.name);
+		if (!R->no_cache && !q.from_hosts_expected && !q.numeric) {
+			uint32_t maxttl = 0;
+			for (int k = 0; k < 2; k++) if (q.sub[k] >= 0) for (int x : R->reqs[q.sub[k]].replies) {
+				RefReply rr = ref_read(R->sent[x].bytes, R->reqs[q.sub[k]].qtype, R->sent[x].q_name, true);
+				if (rr.min_ttl != 0xffffffffu) maxttl = std::max(maxttl, rr.min_ttl + 64);
+			}
+			Run::CacheEnt ce;
+			auto old = R->cache.find(node);
+			if (old != R->cache.end() && old->second.expiry_ns > G.now_ns) ce = old->second;	// an answer from the cache does not extend its life
+			else {
+				ce.expiry_ns = G.now_ns + (int64_t)maxttl * NS;
+				for (struct evutil_addrinfo *ai = res; ai; ai = ai->ai_next) (ai->ai_addr->sa_family == AF_INET ? ce.v4 : ce.v6).push_back(sa_text(ai->ai_addr));
+			}
+			R->cache[node] = ce;
+		}
+	}
+	if (res) evutil_freeaddrinfo(res);
+	R->in_cb++;
+	run_ctx_ops(ri);
+	R->in_cb--;
+}
+
+// ---------------------------------------------------------------------------
+static std::string make_name(int shape, int idx) {
+	std::string u = "r" + std::to_string(idx);
+	auto rep = [](size_t n, char c) { return std::string(n, c); };
+	switch (shape) {
+	case 0: return u + ".test";
+	case 1: return u;
+	case 2: return u + ".sub.example.test";
+	case 3: return "R" + std::to_string(idx) + ".MiXeD.TeSt";
+	case 4: return u + ".test.";
+	case 5: return u + "." + rep(63, 'a') + ".test";
+	case 6: return u + "." + rep(64, 'b') + ".test";
+	case 7: case 8: case 9: case 14: {	// total textual length 253 / 254 / 255 / 300, labels of 50
+		size_t want = shape == 7 ? 253 : shape == 8 ? 254 : shape == 9 ? 255 : 300;
+		std::string s = u;
+		while (s.size() + 1 < want) { size_t k = std::min<size_t>(50, want - s.size() - 1); s += "." + rep(k, 'c'); }
+		if (s.size() < want) s += "d";
+		return s;
+	}
+	case 10: return u + "..test";
+	case 11: return "." + u + ".test";
+	case 12: return u + ".\xc3\xa9\xff.test";
+	case 13: return u + ".a b\\c.test";
+	case 15: return u + ".";
+	default: return u + ".example.test";
+	}
+}
+static bool encodable(const std::string &name) {
+	std::string s = name;
+	if (!s.empty() && s.back() == '.') s.pop_back();
+	if (s.empty()) return false;
+	size_t wire = 1, p = 0;
+	while (p <= s.size()) {
+		size_t d = s.find('.', p);
+		if (d == std::string::npos) d = s.size();
+		size_t l = d - p;
+		if (l == 0 || l > 63) return false;
+		wire += 1 + l;
+		p = d + 1;
+	}
+	return wire <= 255;
+}
+static int num_dots(const std::string &s) { return (int)std::count(s.begin(), s.end(), '.'); }
+static std::string strip_dot(std::string s) { if (!s.empty() && s.back() == '.') s.pop_back(); return s; }
+
+static std::vector<std::string> expected_names(const std::string &name, bool use_search) {
+	std::vector<std::string> v;
+	if (!use_search || R->search.empty()) { v.push_back(lc(strip_dot(name))); return v; }
+	auto with = [&](const std::string &dom) { return lc(strip_dot(name) + "." + dom); };
+	if (num_dots(name) >= R->ndots) { v.push_back(lc(strip_dot(name))); for (auto &d : R->search) v.push_back(with(d)); }
+	else { for (auto &d : R->search) v.push_back(with(d)); v.push_back(lc(strip_dot(name))); }
+	return v;
+}
+
+static int live_req(int64_t v, bool gai_too) {
+	std::vector<int> c;
+	for (size_t i = 0; i < R->reqs.size(); i++) { Req &q = R->reqs[i]; if (q.parent < 0 && q.submitted && q.ncb == 0 && !q.cancelled && !q.dropped_by_free && (gai_too || q.kind != K_GAI)) c.push_back((int)i); }
+	if (c.empty()) return -1;
+	return c[(size_t)v % c.size()];
+}
+
+static const char *const opt_names[] = {"timeout:", "attempts:", "max-inflight:", "randomize-case:", "max-timeouts:", "edns-udp-size:", "use-vc:", "ignore-tc:", "initial-probe-timeout:", "getaddrinfo-allow-skew:", "tcp-idle-timeout:", "probe-backoff-factor:", "max-probe-timeout:"};
+static const int n_opts = sizeof opt_names / sizeof opt_names[0];
+
+static void set_option(int o, int64_t v) {
+	char val[32] = "";
+	o = ((o % n_opts) + n_opts) % n_opts;
+	switch (o) {
+	case 0: { static const char *tv[] = {"0.05", "0.5", "1", "5", "0.001"}; snprintf(val, sizeof val, "%s", tv[v % 5]); R->timeout_ms = (int64_t[]){50, 500, 1000, 5000, 1}[v % 5]; break; }
+	case 1: snprintf(val, sizeof val, "%d", (int)(v % 5)); R->attempts = (int)(v % 5); break;
+	// with transaction ids drawn from 4 (16) values the library's id search must find a free one: requests in flight plus
+	// one probe per nameserver (probes bypass the limit) have to stay below that number
+	case 2: { int m = (int)(1 + v % 8); if (vk::rng_byte_mask == 1) m = std::min(m, 2); else if (vk::rng_byte_mask != 0xff) m = std::min(m, 8); snprintf(val, sizeof val, "%d", m); R->max_inflight = m; break; }
+	case 3: snprintf(val, sizeof val, "%d", (int)(v % 2)); R->randomize_case = v % 2; break;
+	case 4: snprintf(val, sizeof val, "%d", (int)(1 + v % 4)); break;
+	case 5: { int sz = (int[]){512, 513, 1232, 4096, 65535}[v % 5]; snprintf(val, sizeof val, "%d", sz); R->edns = sz; break; }
+	case 6: R->tcp_global_usevc = true; break;
+	case 7: R->igntc_global = true; break;
+	case 8: snprintf(val, sizeof val, "%s", (const char *[]){"0.1", "1", "10"}[v % 3]); break;
+	case 9: snprintf(val, sizeof val, "%s", (const char *[]){"0.01", "0.5", "3"}[v % 3]); break;
+	case 10: snprintf(val, sizeof val, "%s", (const char *[]){"0.2", "2", "10"}[v % 3]); break;
+	case 11: snprintf(val, sizeof val, "%d", (int)(1 + v % 4)); break;
+	case 12: snprintf(val, sizeof val, "%d", (int)(1 + v % 30)); break;
+	}
+	R->min_timeout_ms = std::min(R->min_timeout_ms, R->timeout_ms);
+	int r = API(evdns_base_set_option(R->dns, opt_names[o], val));
+	tr("api set_option %s%s -> %d", opt_names[o], val, r);
+	if (r != 0) violation("C34.set-option", "evdns_base_set_option(%s, %s) failed", opt_names[o], val);
+}
+
+static void ns_add(int k) {
+	Ns &ns = R->ns[k];
+	int r = API(evdns_base_nameserver_sockaddr_add(R->dns, (sockaddr *)&ns.addr, sizeof ns.addr, 0));
+	tr("api nameserver_add ns%d -> %d", k, r);
+	if (r == 0) ns.added = true;
+}
+
+static void exec_op(const Op &op, int idx) {
+	if (stop() || G.capped) return;
+	if (op.ctx >= 0 && R->in_cb == 0) {
+		// attach to a request that is still waiting for its outcome: runs inside that request's callback
+		int ri = live_req(op.ctx, true);
+		if (ri >= 0) { R->reqs[ri].ctx_ops.push_back(idx); return; }
+	}
+	bool dns_ok = R->dns && !R->dns_freed;
+	switch (op.code) {
+	case OP_RESOLVE: {
+		if (!dns_ok) break;
+		Req q;
+		int ri = (int)R->reqs.size();
+		q.kind = (int)(op.a[0] & 3);
+		q.flags = 0;
+		if (op.a[2] & 1) q.flags |= DNS_QUERY_NO_SEARCH;
+		if (op.a[2] & 2) q.flags |= DNS_QUERY_USEVC;
+		if (op.a[2] & 4) q.flags |= DNS_QUERY_IGNTC;
+		if (op.a[2] & 8) q.flags |= DNS_CNAME_CALLBACK;
+		q.t_submit = G.now_ns;
+		q.rc = R->randomize_case;
+		q.edns = R->edns;
+		struct in_addr a4;
+		struct in6_addr a6;
+		if (q.kind == K_PTR4) {
+			uint32_t a = 0x0a000000u + (uint32_t)ri * 257u + (uint32_t)(op.a[1] & 0xff);
+			a4.s_addr = htonl(a);
+			char b[64];
+			snprintf(b, sizeof b, "%u.%u.%u.%u.in-addr.arpa", a & 255, (a >> 8) & 255, (a >> 16) & 255, a >> 24);
+			q.name = b;
+			q.qtype = dw::T_PTR;
+		} else if (q.kind == K_PTR6) {
+			memset(&a6, 0, sizeof a6);
+			a6.s6_addr[0] = 0x20; a6.s6_addr[1] = 0x01; a6.s6_addr[14] = (uint8_t)(ri >> 8); a6.s6_addr[15] = (uint8_t)ri; a6.s6_addr[7] = (uint8_t)op.a[1];
+			std::string s;
+			for (int i = 15; i >= 0; i--) { char b[8]; snprintf(b, sizeof b, "%x.%x.", a6.s6_addr[i] & 15, a6.s6_addr[i] >> 4); s += b; }
+			q.name = s + "ip6.arpa";
+			q.qtype = dw::T_PTR;
+		} else {
+			q.name = make_name((int)(op.a[1] % 17), ri);
+			q.qtype = q.kind == K_A ? dw::T_A : dw::T_AAAA;
+		}
+		q.encodable = encodable(q.name);
+		bool use_search = q.kind <= K_AAAA && !(q.flags & DNS_QUERY_NO_SEARCH);
+		q.expect = expected_names(q.name, use_search);
+		if (use_search && !R->search.empty()) q.encodable = true;	// judged per candidate on the wire (c36_check_query)
+		R->reqs.push_back(q);
+		struct evdns_request *h = nullptr;
+		void *arg = (void *)(intptr_t)ri;
+		switch (q.kind) {
+		case K_A: h = API(evdns_base_resolve_ipv4(R->dns, q.name.c_str(), q.flags, resolve_cb, arg)); break;
+		case K_AAAA: h = API(evdns_base_resolve_ipv6(R->dns, q.name.c_str(), q.flags, resolve_cb, arg)); break;
+		case K_PTR4: h = API(evdns_base_resolve_reverse(R->dns, &a4, q.flags, resolve_cb, arg)); break;
+		default: h = API(evdns_base_resolve_reverse_ipv6(R->dns, &a6, q.flags, resolve_cb, arg)); break;
+		}
+		Req &rq = R->reqs[ri];
+		rq.h = h;
+		rq.submitted = h != nullptr;
+		tr("api resolve req=%d kind=%d flags=0x%x name=%s -> %s", ri, rq.kind, rq.flags, rq.name.size() > 70 ? (rq.name.substr(0, 70) + "...").c_str() : rq.name.c_str(), h ? "handle" : "NULL");
+		if (!h && rq.ncb != 0) V("C34", "C34.null-handle-with-callback", "request %d: the API returned NULL and also ran the callback", ri);
+		if (!h && encodable(rq.expect[0]) && rq.name.size() < 250) V("C36", "C36.valid-name-refused", "request %d: '%s' is a valid name but the request was refused", ri, rq.name.c_str());
+		if (!rq.encodable) probe("unencodable-name");
+		if (!h) probe("request-refused");
+		break;
+	}
+	case OP_GAI: {
+		if (!dns_ok) break;
+		Req q;
+		int ri = (int)R->reqs.size();
+		q.kind = K_GAI;
+		q.t_submit = G.now_ns;
+		int shape = (int)(op.a[0] % 8);
+		bool null_node = false;
+		switch (shape) {
+		case 0: case 1: case 2: q.name = "g" + std::to_string(op.a[5] % 4) + ".test"; break;	// few distinct names: cache and hosts hits
+		case 3: q.name = "10.1.2." + std::to_string(ri % 250); q.numeric = true; break;
+		case 4: q.name = "2001:db8::" + std::to_string(ri % 99); q.numeric = true; break;
+		case 5: q.name = "hostsname" + std::to_string(op.a[5] % 3); break;
+		case 6: null_node = true; q.numeric = true; q.name = ""; break;
+		default: q.name = "G" + std::to_string(op.a[5] % 4) + ".Test"; break;
+		}
+		static const int ports[] = {0, 80, 443, 65535};
+		q.port = ports[op.a[1] % 4];
+		char serv[16];
+		snprintf(serv, sizeof serv, "%d", q.port);
+		q.fam = (int)(op.a[2] % 3);
+		q.socktype = (int[]){0, SOCK_STREAM, SOCK_DGRAM}[op.a[4] % 3];
+		q.gai_flags = 0;
+		if (op.a[3] & 1) q.gai_flags |= EVUTIL_AI_CANONNAME;
+		if (op.a[3] & 2) q.gai_flags |= EVUTIL_AI_PASSIVE;
+		if ((op.a[3] & 12) == 12) q.gai_flags |= EVUTIL_AI_NUMERICHOST;
+		struct evutil_addrinfo hints;
+		memset(&hints, 0, sizeof hints);
+		hints.ai_family = q.fam == 1 ? PF_INET : q.fam == 2 ? PF_INET6 : PF_UNSPEC;
+		hints.ai_socktype = q.socktype;
+		hints.ai_flags = q.gai_flags;
+		q.from_hosts_expected = !q.numeric && R->hosts.count(lc(q.name)) > 0;
+		bool will_query = !q.numeric && !(q.gai_flags & EVUTIL_AI_NUMERICHOST) && !q.from_hosts_expected;
+		R->reqs.push_back(q);
+		if (will_query) {
+			for (int k = 0; k < 2; k++) {
+				if ((k == 0 && q.fam == 2) || (k == 1 && q.fam == 1)) continue;
+				Req s;
+				s.kind = k == 0 ? K_A : K_AAAA;
+				s.qtype = k == 0 ? dw::T_A : dw::T_AAAA;
+				s.name = q.name;
+				s.parent = ri;
+				s.expect = expected_names(q.name, true);
+				s.encodable = true;
+				s.submitted = false;
+				s.rc = R->randomize_case;
+				s.edns = R->edns;
+				s.t_submit = G.now_ns;
+				R->reqs[ri].sub[k] = (int)R->reqs.size();
+				R->reqs.push_back(s);
+			}
+		}
+		int q_before = R->queries_seen;
+		struct evdns_getaddrinfo_request *gh = API(evdns_getaddrinfo(R->dns, null_node ? nullptr : R->reqs[ri].name.c_str(), op.a[1] % 5 == 4 ? nullptr : serv, &hints, gai_cb, (void *)(intptr_t)ri));
+		Req &rq = R->reqs[ri];
+		if (op.a[1] % 5 == 4) rq.port = 0;
+		rq.gh = gh;
+		rq.submitted = gh != nullptr;
+		tr("api getaddrinfo req=%d node=%s port=%d fam=%d flags=0x%x socktype=%d -> %s ncb=%d", ri, null_node ? "(null)" : rq.name.c_str(), rq.port, rq.fam, rq.gai_flags, rq.socktype, gh ? "handle" : "NULL", rq.ncb);
+		if (!gh && rq.ncb != 1) V("C34", "C34.immediate-outcome-count", "getaddrinfo %d returned NULL, so its outcome is immediate, but the callback ran %d time(s)", ri, rq.ncb);
+		if (gh && rq.ncb != 0) V("C34", "C34.handle-after-callback", "getaddrinfo %d returned a handle although its callback has already run", ri);
+		if (!gh) for (int k = 0; k < 2; k++) if (rq.sub[k] >= 0) R->reqs[rq.sub[k]].ncb = 1;
+		if (rq.numeric || (rq.gai_flags & EVUTIL_AI_NUMERICHOST)) {
+			probe("numeric-or-null-node");
+			bool is6 = rq.name.find(':') != std::string::npos;
+			if (!null_node && rq.numeric && !gh && ((is6 && rq.fam == 1) || (!is6 && rq.fam == 2)) && rq.result == 0)
+				V("C38", "C38.family-hint", "getaddrinfo %d: '%s' with family hint %d succeeded", ri, rq.name.c_str(), rq.fam);
+			if (gh) V("C38", "C38.numeric-needs-no-query", "getaddrinfo %d: numeric / NULL node, yet the request went asynchronous", ri);
+			if (!gh && rq.numeric && rq.result == 0 && !null_node) {}
+		}
+		if (rq.from_hosts_expected && !(rq.gai_flags & EVUTIL_AI_NUMERICHOST)) {
+			if (gh) V("C38", "C38.hosts-entry-ignored", "getaddrinfo %d: '%s' is in the hosts file, yet the request went to the network", ri, rq.name.c_str());
+		}
+		(void)q_before;
+		break;
+	}
+	case OP_CANCEL: {
+		if (!dns_ok) break;
+		int ri = live_req(op.a[0], true);
+		if (ri < 0) break;
+		Req &q = R->reqs[ri];
+		q.cancelled = true;
+		tr("api cancel req=%d", ri);
+		if (q.kind == K_GAI) APIV(evdns_getaddrinfo_cancel(q.gh));
+		else APIV(evdns_cancel_request(R->dns, q.h));
+		probe(R->in_cb ? "cancel-inside-callback" : "cancel");
+		break;
+	}
+	case OP_NS_SCRIPT: {
+		Ns &ns = R->ns[op.a[0] % R->nns];
+		Behav b;
+		b.kind = (int)(op.a[1] % B_N);
+		b.a = op.a[2];
+		b.b = op.a[3];
+		if (ns.script.size() < 64) ns.script.push_back(b);
+		break;
+	}
+	case OP_LOOP: {
+		if (R->in_cb) break;
+		int iters = (int)std::max<int64_t>(1, op.a[0] % 40);
+		int64_t until = G.now_ns + std::max<int64_t>(0, op.a[1]) * 1000000;
+		for (int k = 0; k < iters && !stop() && !G.capped; k++) {
+			R->stalled = false;
+			int r = event_base_loop(R->base, op.a[1] > 0 ? EVLOOP_ONCE : EVLOOP_NONBLOCK);
+			if (r != 0 || R->stalled) break;
+			if (op.a[1] > 0 && G.now_ns >= until) break;
+		}
+		break;
+	}
+	case OP_ADVANCE:
+		if (R->in_cb) { vk::advance(std::min<int64_t>(op.a[0], 2000) * 1000000); break; }
+		vk::advance_running(std::max<int64_t>(0, op.a[0]) * 1000000);
+		break;
+	case OP_OPTION:
+		if (!dns_ok) break;
+		set_option((int)op.a[0], op.a[1]);
+		break;
+	case OP_NS_CTL: {
+		if (!dns_ok) break;
+		int what = (int)(op.a[0] % 3);
+		if (what == 0) ns_add((int)(op.a[1] % R->nns));
+		else if (what == 1) {
+			if (suppressed("nameservers-freed-while-probing") && R->ns_failed > 0) { probe("known:nameservers-freed-while-probing"); break; }
+			int r = API(evdns_base_clear_nameservers_and_suspend(R->dns));
+			tr("api clear_nameservers_and_suspend -> %d", r);
+			for (int k = 0; k < R->nns; k++) R->ns[k].added = false;
+			// requests in flight go back to the waiting queue and get new ids when they are sent again
+			R->epoch++;
+			probe("clear-and-suspend");
+		} else {
+			int r = API(evdns_base_resume(R->dns));
+			tr("api resume -> %d", r);
+		}
+		break;
+	}
+	case OP_SEARCH: {
+		if (!dns_ok) break;
+		// the search list is one shared object inside the library: changing it under requests in flight changes their
+		// candidates; the property is about lists configured before the request
+		if (live_req(0, true) >= 0) break;
+		int what = (int)(op.a[0] % 3);
+		if (what == 0) {
+			static const char *doms[] = {"corp.test", "a.b.example.test", "x.test"};
+			const char *d = doms[op.a[1] % 3];
+			// evdns_base_search_add() puts the new domain in front of the list (only resolv.conf parsing reverses the list into file order)
+			if (R->search.size() < 3 && std::find(R->search.begin(), R->search.end(), std::string(d)) == R->search.end()) { APIV(evdns_base_search_add(R->dns, d)); R->search.insert(R->search.begin(), d); tr("api search_add %s", d); }
+		} else if (op.a[1] % 4 == 3 && R->resolv_fd < 0) {
+			// the documented order: a resolv.conf "search" line lists the domains in the order they are tried
+			std::string text = what == 1 ? "search corp.test a.b.example.test\noptions ndots:2\n" : "search x.test corp.test a.b.example.test\n";
+			int fd;
+			{ vk::HarnessScope hs; fd = memfd_create("resolv", 0); if (fd >= 0 && write(fd, text.data(), text.size()) < 0) {} }
+			if (fd < 0) break;
+			R->resolv_fd = fd;
+			char path[64];
+			snprintf(path, sizeof path, "/proc/self/fd/%d", fd);
+			int r = API(evdns_base_resolv_conf_parse(R->dns, DNS_OPTION_SEARCH, path));
+			tr("api resolv_conf_parse(search) variant %d -> %d", what, r);
+			if (r != 0) { violation("C36.resolv-conf", "evdns_base_resolv_conf_parse failed: %d", r); break; }
+			if (what == 1) { R->search = {"corp.test", "a.b.example.test"}; R->ndots = 2; }
+			else { R->search = {"x.test", "corp.test", "a.b.example.test"}; R->ndots = 1; }
+			probe("search-list-from-resolv-conf");
+		} else if (what == 1) { APIV(evdns_base_search_clear(R->dns)); R->search.clear(); R->ndots = 1; tr("api search_clear"); }
+		else { int nd = (int)(op.a[1] % 4); APIV(evdns_base_search_ndots_set(R->dns, nd)); R->ndots = nd; tr("api search_ndots_set %d", nd); }
+		break;
+	}
+	case OP_BASE_FREE: {
+		if (!dns_ok) break;
+		if (suppressed("base-free-with-getaddrinfo-result-queued")) {
+			// known finding: a getaddrinfo whose internal result callback is queued when the base is freed
+			bool risky = false;
+			// (inside a callback any getaddrinfo of this run may have one: its user callback can come from the allow-skew timer
+			// while the cancelled sub-question's own callback is still queued)
+			for (auto &q : R->reqs) if (q.kind == K_GAI && q.submitted && (R->in_cb || (q.ncb == 0 && q.cancelled))) risky = true;
+			if (risky) { probe("known:base-free-with-getaddrinfo-result-queued"); break; }
+		}
+		if (suppressed("nameservers-freed-while-probing") && R->in_cb && R->ns_failed > 0) { probe("known:nameservers-freed-while-probing"); break; }
+		if (suppressed("base-free-dropping-getaddrinfo") && !(op.a[0] & 1)) {
+			bool any = false;
+			for (auto &q : R->reqs) if (q.kind == K_GAI && q.submitted && q.ncb == 0) any = true;
+			if (any) { probe("known:base-free-dropping-getaddrinfo"); break; }
+		}
+		int fail = (int)(op.a[0] & 1);
+		tr("api evdns_base_free fail_requests=%d", fail);
+		R->dns_freed = true;
+		R->freed_fail_requests = fail;
+		for (auto &q : R->reqs) if (q.submitted && q.ncb == 0) { if (fail) q.failed_by_free = true; else q.dropped_by_free = true; }
+		APIV(evdns_base_free(R->dns, fail));
+		R->dns = nullptr;
+		probe(R->in_cb ? "base-free-inside-callback" : (fail ? "base-free-failing-requests" : "base-free-dropping-requests"));
+		break;
+	}
+	case OP_NS_POWER: {
+		Ns &ns = R->ns[op.a[0] % R->nns];
+		ns.up = op.a[1] & 1;
+		tr("ns%d power %d", (int)(op.a[0] % R->nns), (int)ns.up);
+		break;
+	}
+	case OP_HOSTS: {
+		if (!dns_ok || R->hosts_fd >= 0) break;
+		// a hosts file served from memory: /proc/self/fd/<memfd>
+		std::string text = "# test hosts\n10.9.8.7 hostsname0\n::9 hostsname0\n10.9.8.8   hostsname1 hostsname2\n  \n192.0.2.1 G1.test\n";
+		int fd;
+		{ vk::HarnessScope hs; fd = memfd_create("hosts", 0); if (fd >= 0 && write(fd, text.data(), text.size()) < 0) {} }
+		if (fd < 0) break;
+		R->hosts_fd = fd;
+		char path[64];
+		snprintf(path, sizeof path, "/proc/self/fd/%d", fd);
+		int r = API(evdns_base_load_hosts(R->dns, path));
+		tr("api load_hosts -> %d", r);
+		if (r != 0) { violation("C38.load-hosts", "evdns_base_load_hosts failed: %d", r); break; }
+		R->hosts["hostsname0"] = {"10.9.8.7", "::9"};
+		R->hosts["hostsname1"] = {"10.9.8.8"};
+		R->hosts["hostsname2"] = {"10.9.8.8"};
+		R->hosts["g1.test"] = {"192.0.2.1"};
+		probe("hosts-loaded");
+		break;
+	}
+	}
+}
+
+// ---------------------------------------------------------------------------
+static void execute(const Plan &p) {
+	Run run;
+	R = &run;
+	run.plan = &p;
+	vk::net.sim_sockets = true;
+	vk::net.lat_min_ns = p.c("lat_min_us", 100) * 1000;
+	vk::net.lat_max_ns = p.c("lat_max_us", 100) * 1000;
+	vk::net.connect_lat_ns = p.c("connect_lat_us", 100) * 1000;
+	vk::wait_cap = 30000;
+	if (p.c("id_bits")) vk::rng_byte_mask = (unsigned)((p.c("id_bits") == 1 && p.c("nns", 1) > 1) ? 3 : p.c("id_bits"));
+	static const struct { const char *k; vk::Site s; } sites[] = {
+		{"f_sendto_eagain", vk::S_SENDTO_EAGAIN}, {"f_sendto_err", vk::S_SENDTO_ERR}, {"f_recv_eagain", vk::S_RECV_EAGAIN},
+		{"f_dgram_drop", vk::S_DGRAM_DROP}, {"f_dgram_dup", vk::S_DGRAM_DUP}, {"f_dgram_reorder", vk::S_DGRAM_REORDER},
+		{"f_read_short", vk::S_READ_SHORT}, {"f_write_short", vk::S_WRITE_SHORT}, {"f_read_eagain", vk::S_READ_EAGAIN},
+	};
+	for (auto &s : sites) if (p.c(s.k)) vk::set_fault(s.s, (int)p.c(s.k));
+	g_tcp_out.clear();
+	vk::tap_dgram = [](int, bool out, const char *b, size_t n, const sockaddr *) { if (out && R) on_query_sent(std::string(b, n)); };
+	vk::tap_stream = on_stream_tap;
+	mon::log_tap = [](int, const std::string &m) {
+		if (!R) return;
+		if (m.find("has failed") != std::string::npos && m.find("Nameserver") != std::string::npos) R->ns_failed++;
+		// "is back up" does not end it: a probe answered with TC goes on over TCP after the nameserver counts as up again
+	};
+	vk::hooks.wait_enter = [](int, int64_t, int) { if (R && !R->in_cb) check_ids_unique(); };
+	vk::hooks.stall = []() { if (R && R->base) { R->stalled = true; event_base_loopbreak(R->base); } };
+	vk::hooks.capped = []() { if (R && R->base) event_base_loopbreak(R->base); };
+
+	struct event_config *cfg = event_config_new();
+	static const char *const methods[] = {"epoll", "poll", "select"};
+	int meth = (int)(p.c("backend") % 3);
+	for (int i = 0; i < 3; i++) if (i != meth) event_config_avoid_method(cfg, methods[i]);
+	event_config_set_flag(cfg, EVENT_BASE_FLAG_IGNORE_ENV);
+	run.base = event_base_new_with_config(cfg);
+	event_config_free(cfg);
+	if (!run.base) { violation("C34.base-new", "no event base"); R = nullptr; return; }
+	run.nns = (int)std::max<int64_t>(1, std::min<int64_t>(MAXNS, p.c("nns", 1)));
+	for (int i = 0; i < run.nns; i++) ns_start(i);
+	int flags = 0;
+	if (p.c("disable_when_inactive")) flags |= EVDNS_BASE_DISABLE_WHEN_INACTIVE;
+	if (p.c("no_cache")) { flags |= EVDNS_BASE_NO_CACHE; run.no_cache = true; }
+	run.dns = API(evdns_base_new(run.base, flags));
+	if (!run.dns) { violation("C34.dns-base-new", "evdns_base_new failed"); event_base_free(run.base); R = nullptr; return; }
+	tr("cfg backend=%s nns=%d flags=0x%x idmask=0x%x", event_base_get_method(run.base), run.nns, flags, vk::rng_byte_mask);
+	if (vk::rng_byte_mask != 0xff) set_option(2, vk::rng_byte_mask == 1 ? 1 : 3);	// few transaction ids: keep the in-flight limit below their number
+	for (int i = 0; i < run.nns; i++) if (!(p.c("ns_late") && i > 0)) ns_add(i);
+
+	for (size_t i = 0; i < p.ops.size(); i++) { if (stop() || G.capped) break; exec_op(p.ops[i], (int)i); }
+
+	// ---- liveness: faults stop, every nameserver answers; every request still open must get its outcome
+	if (!stop() && !G.capped) {
+		run.settling = true;
+		for (int s = 0; s < vk::S_NSITES; s++) vk::set_fault((vk::Site)s, 0);
+		for (int i = 0; i < run.nns; i++) { run.ns[i].up = true; run.ns[i].script.clear(); }
+		if (run.dns && !run.dns_freed) {
+			bool any = false;
+			for (int i = 0; i < run.nns; i++) any = any || run.ns[i].added;
+			if (!any) ns_add(0);
+			API(evdns_base_resume(run.dns));
+		}
+		auto open_reqs = [&]() { int n = 0; for (auto &q : run.reqs) if (q.parent < 0 && q.submitted && q.ncb == 0 && !q.dropped_by_free) n++; return n; };
+		int64_t deadline = G.now_ns + 6 * 3600 * NS;
+		int iters = 0;
+		while (open_reqs() > 0 && !stop() && !G.capped && G.now_ns < deadline && iters < 20000) {
+			run.stalled = false;
+			int r = event_base_loop(run.base, EVLOOP_ONCE);
+			iters++;
+			if (r < 0) break;
+			if (run.stalled || r == 1) {
+				if (vk::events_pending()) vk::advance_running(std::max<int64_t>(0, vk::next_event_time() - G.now_ns));
+				else break;
+			}
+		}
+		if (iters >= 20000) G.capped = true;
+		if (!stop() && !G.capped) for (size_t i = 0; i < run.reqs.size(); i++) {
+			Req &q = run.reqs[i];
+			if (q.parent >= 0 || !q.submitted || q.ncb || q.dropped_by_free) continue;
+			V("C34", "C34.no-outcome", "%s %zu ('%s') never got its callback: nameservers answer every query, faults have stopped, %lld virtual seconds have passed since it was made (%d queries seen for it, cancelled=%d, evdns base %s)",
+			    q.kind == K_GAI ? "getaddrinfo" : "request", i, q.name.substr(0, 50).c_str(), (long long)((G.now_ns - q.t_submit) / NS), q.nqueries, (int)q.cancelled, run.dns_freed ? "freed with fail_requests=1" : "alive");
+			break;
+		}
+	}
+	// ---- teardown
+	bool gai_dropped = false;
+	for (auto &q : run.reqs) if (q.kind == K_GAI && q.dropped_by_free && q.ncb == 0) gai_dropped = true;
+	if (run.dns && !run.dns_freed) {
+		for (auto &q : run.reqs) if (q.submitted && q.ncb == 0) q.failed_by_free = true;
+		run.dns_freed = true;
+		run.freed_fail_requests = 1;
+		APIV(evdns_base_free(run.dns, 1));
+		run.dns = nullptr;
+	}
+	for (int k = 0; k < 4 && !stop(); k++) event_base_loop(run.base, EVLOOP_NONBLOCK);
+	if (!stop() && !G.capped) for (size_t i = 0; i < run.reqs.size(); i++) {
+		Req &q = run.reqs[i];
+		if (q.parent >= 0 || !q.submitted || q.dropped_by_free) continue;
+		if (q.ncb != 1) { V("C34", "C34.outcome-count", "%s %zu: %d callbacks by the time the evdns base had been freed with fail_requests=1 and the loop had run", q.kind == K_GAI ? "getaddrinfo" : "request", i, q.ncb); break; }
+	}
+	if (mon::locks_enabled && mon::held() != 0 && !stop()) violation("C08.lock-held-at-end", "%d lock acquisition(s) held at the end", mon::held());
+	struct event_base *b = run.base;
+	event_base_free(b);
+	run.base = nullptr;
+	if (run.hosts_fd >= 0) { vk::HarnessScope hs; close(run.hosts_fd); }
+	if (run.resolv_fd >= 0) { vk::HarnessScope hs; close(run.resolv_fd); }
+	for (int i = 0; i < run.nns; i++) for (auto c : run.ns[i].conns) delete c;
+	if (!stop() && !G.capped && !gai_dropped) {
+		const char *lp = (p.prop == "C33" || p.prop == "C34" || p.prop == "C38") ? p.prop.c_str() : "C10";
+		if (mon::live_blocks_run() != 0) violation((std::string(lp) + ".leak").c_str(), "%lld block(s) allocated by the library still live after evdns_base_free and event_base_free: %s", (long long)mon::live_blocks_run(), mon::live_blocks_desc(6).c_str());
+		else if (vk::open_fd_count_lib() != 0) violation((std::string(lp) + ".fd-leak").c_str(), "library fds still open: %s", vk::open_fd_list_lib().c_str());
+	}
+	if (!stop()) {
+		const std::string &prop = p.prop;
+		int done = 0;
+		for (auto &q : run.reqs) if (q.parent < 0 && q.ncb) done++;
+		if (prop == "C34") G.nontrivial = run.non_first_try > 0 && done > 0;
+		else if (prop == "C36") G.nontrivial = run.queries_seen > 0;
+		else if (prop == "C33") G.nontrivial = run.parsed_beyond_header > 0;
+		else if (prop == "C38") G.nontrivial = run.gai_compared > 0;
+		else G.nontrivial = done > 0;
+	}
+	R = nullptr;
+}
+
+static void generate(Plan &p, Rng &r) {
+	const std::string &prop = p.prop;
+	bool thorough = p.tier == "thorough";
+	p.cfg["backend"] = r.below(3);
+	p.cfg["nns"] = r.chance(0.5) ? 1 : r.range(2, MAXNS);
+	p.cfg["ns_late"] = r.chance(0.1);
+	p.cfg["disable_when_inactive"] = r.chance(0.2);
+	p.cfg["no_cache"] = r.chance(prop == "C38" ? 0.2 : 0.5);
+	p.cfg["id_bits"] = (prop == "C34" && r.chance(0.35)) ? r.pick(std::vector<int64_t>{1, 3}) : 0;
+	p.cfg["lat_min_us"] = r.pick(std::vector<int64_t>{1, 100, 20000});
+	p.cfg["lat_max_us"] = p.cfg["lat_min_us"] + (r.chance(0.5) ? 0 : (int64_t)r.below(400000));
+	p.cfg["connect_lat_us"] = r.pick(std::vector<int64_t>{0, 100, 50000});
+	if (r.chance(prop == "C34" ? 0.5 : 0.2)) {
+		static const char *ks[] = {"f_sendto_eagain", "f_sendto_err", "f_recv_eagain", "f_dgram_drop", "f_dgram_dup", "f_dgram_reorder", "f_read_short", "f_write_short", "f_read_eagain"};
+		for (auto k : ks) if (r.chance(0.3)) p.cfg[k] = r.pick(std::vector<int64_t>{10, 50, 200});
+	}
+	struct W { int code; int w; };
+	std::vector<W> ws = {{OP_RESOLVE, 20}, {OP_GAI, 4}, {OP_CANCEL, 3}, {OP_NS_SCRIPT, 16}, {OP_LOOP, 16}, {OP_ADVANCE, 4}, {OP_OPTION, 4}, {OP_NS_CTL, 2}, {OP_SEARCH, 2},
+	    {OP_BASE_FREE, 1}, {OP_NS_POWER, 2}, {OP_HOSTS, 0}};
+	auto bump = [&](int code, int w) { for (auto &x : ws) if (x.code == code) x.w = w; };
+	if (prop == "C34") { bump(OP_CANCEL, 6); bump(OP_GAI, 8); bump(OP_NS_CTL, 3); bump(OP_NS_POWER, 4); bump(OP_BASE_FREE, 2); }
+	if (prop == "C36") { bump(OP_SEARCH, 8); bump(OP_OPTION, 6); bump(OP_NS_SCRIPT, 8); bump(OP_CANCEL, 1); }
+	if (prop == "C33") { bump(OP_NS_SCRIPT, 26); bump(OP_GAI, 2); bump(OP_CANCEL, 1); bump(OP_BASE_FREE, 0); }
+	if (prop == "C38") { bump(OP_GAI, 24); bump(OP_RESOLVE, 3); bump(OP_HOSTS, 3); bump(OP_ADVANCE, 8); bump(OP_SEARCH, 1); bump(OP_BASE_FREE, 0); }
+	int total = 0;
+	for (auto &x : ws) total += x.w;
+	int nops = thorough ? (int)r.range(8, 90) : (int)r.range(4, 40);
+	for (int i = 0; i < nops; i++) {
+		int x = (int)r.below(total), code = 0;
+		for (auto &w : ws) { if (x < w.w) { code = w.code; break; } x -= w.w; }
+		Op o;
+		o.code = code;
+		switch (code) {
+		case OP_RESOLVE:
+			o.a[0] = r.chance(0.6) ? r.below(2) : r.below(4);
+			o.a[1] = prop == "C36" ? r.below(17) : (r.chance(0.8) ? r.pick(std::vector<int64_t>{0, 0, 1, 2, 3, 4}) : r.below(17));
+			o.a[2] = r.chance(0.5) ? 1 : 0;
+			if (r.chance(0.15)) o.a[2] |= 2;
+			if (r.chance(0.1)) o.a[2] |= 4;
+			if (r.chance(prop == "C33" ? 0.4 : 0.1)) o.a[2] |= 8;
+			break;
+		case OP_GAI: o.a[0] = r.below(8); o.a[1] = r.below(5); o.a[2] = r.below(3); o.a[3] = r.below(16); o.a[4] = r.below(3); o.a[5] = r.below(12); break;
+		case OP_CANCEL: o.a[0] = r.below(16); break;
+		case OP_NS_SCRIPT: {
+			o.a[0] = r.below(MAXNS);
+			static const int common[] = {B_ANSWER, B_DROP, B_DELAY, B_RCODE, B_TC, B_MUTATE, B_DUP, B_NODATA, B_TCP_CLOSE_AT, B_TCP_RST, B_OTHER_TYPE, B_BIG, B_CNAME};
+			o.a[1] = prop == "C33" && r.chance(0.5) ? B_MUTATE : common[r.below(B_N)];
+			switch (o.a[1]) {
+			case B_ANSWER: o.a[2] = r.range(1, 8); o.a[3] = r.pick(std::vector<int64_t>{0, 1, 2, 5, 300, 86400}); break;
+			case B_DELAY: case B_DUP: o.a[2] = r.pick(std::vector<int64_t>{1, 40, 499, 500, 501, 3000, 4999, 5000, 5001, 20000}); break;
+			case B_RCODE: o.a[2] = r.range(0, 15); break;
+			case B_MUTATE: o.a[2] = r.below(15); o.a[3] = r.below(100000); break;
+			case B_NODATA: o.a[2] = r.below(1000); break;
+			case B_TCP_CLOSE_AT: o.a[2] = r.below(200); break;
+			case B_BIG: o.a[2] = r.range(2, 60); break;
+			case B_CNAME: o.a[2] = r.range(1, 3); o.a[3] = r.below(8); break;
+			default: break;
+			}
+			break;
+		}
+		case OP_LOOP: o.a[0] = r.range(1, 30); o.a[1] = r.chance(0.2) ? 0 : r.pick(std::vector<int64_t>{1, 50, 1000, 5000, 60000}); break;
+		case OP_ADVANCE: o.a[0] = r.pick(std::vector<int64_t>{1, 499, 500, 999, 1000, 2999, 3000, 5000, 10000, 3600000}); break;
+		case OP_OPTION: o.a[0] = r.below(n_opts); o.a[1] = r.below(60); break;
+		case OP_NS_CTL: o.a[0] = r.below(3); o.a[1] = r.below(MAXNS); break;
+		case OP_SEARCH: o.a[0] = r.chance(0.6) ? 0 : r.range(1, 2); o.a[1] = r.below(12); break;
+		case OP_BASE_FREE: o.a[0] = r.chance(0.8) ? 1 : 0; break;
+		case OP_NS_POWER: o.a[0] = r.below(MAXNS); o.a[1] = r.chance(0.4); break;
+		default: break;
+		}
+		if ((code == OP_CANCEL || code == OP_BASE_FREE || code == OP_RESOLVE || code == OP_GAI || code == OP_OPTION) && r.chance(code == OP_RESOLVE ? 0.05 : 0.3)) o.ctx = (int)r.below(8);
+		p.ops.push_back(o);
+	}
+}
+
+static std::vector<int64_t> cfg_simpler(const std::string &key, int64_t cur) {
+	if (key == "nns") return cur > 1 ? std::vector<int64_t>{1} : std::vector<int64_t>{};
+	if (key == "lat_min_us" || key == "lat_max_us" || key == "connect_lat_us") return cur != 100 ? std::vector<int64_t>{100} : std::vector<int64_t>{};
+	if (cur != 0) return {0};
+	return {};
+}
+
+static void process_init(int cls) {
+	(void)cls;
+	struct event_base *b = event_base_new();
+	struct evdns_base *d = evdns_base_new(b, 0);
+	if (d) evdns_base_free(d, 0);
+	event_base_free(b);
+}
+
+int main(int argc, char **argv) {
+	static Harness h = {"h_dns", opnames, OP_N, generate, execute, cfg_simpler, process_init};
+	return harness_main(argc, argv, h);
 }
